@@ -25,6 +25,10 @@ def project_list(tier):
         for by in ("plan", "step"):
             out.append((f"pc:{consumer}:{by}", ("f_prodcons", {"consumer": consumer, "producer_by": by}), None))
     out.append(("pc:declared", ("f_prodcons", {"consumer": "plain", "declared": 1}), None))
+    # one amendment names the product and a file under a static tree: the request waits for the
+    # hash of the tree file between two transactions, and the producer may finish in that wait
+    for consumer in ("amend_first", "read_first"):
+        out.append((f"pc:tree:{consumer}", ("f_prodcons", {"consumer": consumer, "tree": 1}), None))
     out.append(("tree", ("f_treeamend", {}), None))
     out.append(("pc4", ("f_prodcons4", {}), None))
     out.append(("amend_static", ("f_amend", {"extra": "static"}), None))
